@@ -19,7 +19,8 @@ FINDINGS = os.path.join(VERIF, "known_findings.json")
 # Layer B switches as the current code has them (each names a repaired deviation; the other value is the code before
 # the repair, kept so that TLC can show the deviation breaks the obligation)
 CODE = {"AndLeftTrueNeedsFalseSet": True,     # fix: a true left operand of a conjunction ...
-        "PreferWildcardB3": False}            # fix: IndexedCache.retrieve follows every matching branch
+        "PreferWildcardB3": False,            # fix: IndexedCache.retrieve follows every matching branch
+        "ForAllKeepsConditionVars": True}     # fix: for_all lost solutions when its condition has a variable nobody above needs
 
 
 def load_findings():
